@@ -141,13 +141,25 @@ def _oname(k):
     return 'g%d' % k
 
 
+def _snames(case):
+    """name id of each pattern structure, in structure (= pattern_types) order"""
+    return case.get('snames') or list(range(len(case['cols'])))
+
+
 def _mvctx(case):
+    """The pattern structures are created in the order of the `pattern_types` dict (= the order of
+    case['cols'] and of the model); `attribute_names` / the data columns may come in another order
+    (case['attr_perm'][j] = structure stored in data column j)."""
     from fcapy.mvcontext import MVContext, PS
     P = PS.IntervalNumpyPS if case['numpy'] else PS.IntervalPS
     n, cols = case['n'], case['cols']
-    data = [[tuple(float(x) for x in cols[ps][g]) for ps in range(len(cols))] for g in range(n)]
-    names = ['a%d' % ps for ps in range(len(cols))]
-    return MVContext(data=data, pattern_types={nm: P for nm in names}, attribute_names=names,
+    p = len(cols)
+    sn = _snames(case)
+    perm = case.get('attr_perm') or list(range(p))
+    data = [[tuple(float(x) for x in cols[perm[j]][g]) for j in range(p)] for g in range(n)]
+    attr_names = ['a%d' % sn[perm[j]] for j in range(p)]
+    pattern_types = {'a%d' % sn[ps]: P for ps in range(p)}
+    return MVContext(data=data, pattern_types=pattern_types, attribute_names=attr_names,
                      object_names=[_oname(g) for g in range(n)])
 
 
@@ -195,7 +207,8 @@ def run_impl(case):
     K_case = case
 
     def intent_of(items, named):
-        return {('a%d' % ps if named else ps): j2d(j) for ps, j in items}
+        sn = _snames(K_case)
+        return {('a%d' % sn[ps] if named else ps): j2d(j) for ps, j in items}
     if kind == 'mv':
         def go():
             K = _mvctx(K_case)
@@ -207,7 +220,7 @@ def run_impl(case):
                 base = [_oname(g) for g in base] if named else list(base)
             pti = case['pti']
             if pti is not None and named:
-                pti = ['a%d' % ps for ps in pti]
+                pti = ['a%d' % _snames(K_case)[ps] for ps in pti]
             res = K.get_minimal_generators(intent, bg, base, use_indexes=not named, ps_to_iterate=pti,
                                            projection_to_start=case['pstart'])
             return _dd_out(res, named)
@@ -235,7 +248,17 @@ def to_coq(case, out):
         else:
             o = '(OErr %d)' % ERR_KINDS.get(out[1], 11)
         return 'Build_c18_case %s %s' % (inp, o)
-    if kind == 'mv':
+    if kind == 'mv' and case['named']:
+        sn = _snames(case)
+
+        def nm(items):
+            return ddcoq([[sn[ps], j] for ps, j in items])
+        inp = '(InMVNamed %s %s %s %s %s %s %s %d)' % (
+            kcoq(case), coq(sn), coq(list(range(case['n']))), nm(case['intent']),
+            'None' if case['base_gen'] is None else '(Some %s)' % nm(case['base_gen']),
+            some(case['base']), some(None if case['pti'] is None else [sn[ps] for ps in case['pti']]),
+            case['pstart'])
+    elif kind == 'mv':
         inp = '(InMV %s %s %s %s %s %d)' % (
             kcoq(case), ddcoq(case['intent']),
             'None' if case['base_gen'] is None else '(Some %s)' % ddcoq(case['base_gen']),
@@ -270,7 +293,9 @@ def stats(case):
         return {'kind': 'mv', 'mv_shape': '%dx%d' % (case['n'], len(case['cols'])),
                 'ps': 'numpy' if case['numpy'] else 'plain', 'mv_base': case.get('base_kind', ''),
                 'mv_by': 'name' if case['named'] else 'index',
-                'mv_base_gen': case['base_gen'] is not None, 'mv_pti': case['pti'] is not None}
+                'mv_base_gen': case['base_gen'] is not None, 'mv_pti': case['pti'] is not None,
+                'mv_columns': 'permuted' if (case.get('attr_perm') or []) != sorted(case.get('attr_perm') or [])
+                              else 'declared order'}
     return {'kind': 'diff', 'ps': 'numpy' if case['numpy'] else 'plain'}
 
 
@@ -322,6 +347,17 @@ def formal_cases(rng, t, tkind, per_table):
         if parents:
             bos.append((rng.choice(parents), 'parent'))
             bos.append((rng.choice(parents), 'parent'))
+        # a listing with repeats denotes the same set
+        dup = list(rng.choice(bos)[0] or allobjs)
+        if dup:
+            if len(dup) < h and rng.random() < 0.6:
+                # padded with repeats up to exactly n_objects entries: as long as the full listing, a smaller set
+                dup = dup + [rng.choice(dup) for _ in range(h - len(dup))]
+            else:
+                dup = dup + [rng.choice(dup) for _ in range(rng.randint(1, 2))]
+            if rng.random() < 0.5:
+                rng.shuffle(dup)
+            bos.append((dup, 'duplicates'))
         for bg in bgs:
             for bo, bk in bos:
                 combos.append((B, bg, bo, bk, True))
@@ -382,11 +418,19 @@ def mv_cases(rng, max_n, max_ps, n_timeouts):
     out = []
     budget = [n_timeouts]
 
+    # structure names and the order of attribute_names / data columns: in half of the tables the
+    # `pattern_types` dict is declared in another order than `attribute_names`
+    snames = rng.sample(range(20), p) if rng.random() < 0.6 else list(range(p))
+    attr_perm = list(range(p))
+    if p > 1 and rng.random() < 0.6:
+        while attr_perm == list(range(p)):
+            rng.shuffle(attr_perm)
+
     def mk(intent_d, base, base_kind, bg=None, pti=None, pstart=1, collapse=False, named=None):
-        return {'kind': 'mv', 'cols': cols, 'n': n, 'numpy': numpy_ps,
+        return {'kind': 'mv', 'cols': cols, 'n': n, 'numpy': numpy_ps, 'snames': snames, 'attr_perm': attr_perm,
                 'intent': [[ps, _dj(intent_d[ps], collapse)] for ps in range(p)],
                 'base_gen': bg, 'base': base, 'pti': pti, 'pstart': pstart, 'base_kind': base_kind,
-                'named': (rng.random() < 0.25) if named is None else named}
+                'named': (rng.random() < 0.35) if named is None else named}
     for e, d in concepts:
         out.append(mk(d, None, 'none', collapse=rng.random() < 0.2))
         supers = [(e2, d2) for e2, d2 in concepts if set(e) < set(e2)]
@@ -398,7 +442,8 @@ def mv_cases(rng, max_n, max_ps, n_timeouts):
                 pti = [ps for ps in range(p) if d[ps] != d2[ps]]
                 if pti:
                     out.append(mk(d, list(e2), 'super', pti=pti))
-            out.append({'kind': 'diff', 'cols': cols, 'n': n, 'numpy': numpy_ps,
+            out.append({'kind': 'diff', 'cols': cols, 'n': n, 'numpy': numpy_ps, 'snames': snames,
+                        'attr_perm': attr_perm,
                         'new': [[ps, _dj(d[ps])] for ps in range(p)],
                         'old': [[ps, _dj(d2[ps])] for ps in range(p)]})
         if e and rng.random() < 0.4:
